@@ -2860,8 +2860,17 @@ Section Sem.
 
       (* guard of the transparency theorem: with the [exception] hook, a handler's type expression is evaluated a
          second time for the payload of the event and the bound name is read (modelled in the reference semantics
-         as the implementation does it); this is invisible only for handlers without type and name *)
+         as the implementation does it); this is invisible when the type is absent or a (non-local) name: looking the
+         name up again cannot fail and has no effect.  An arbitrary type expression would be evaluated twice. *)
       Definition bare_handler (ty : option expr) (name : option string) : bool := negb (is_some ty) && negb (is_some name).
+      (* a handler without type, or whose type is a name that is not a local variable (an exception class) *)
+      Definition simple_handler (ty : option expr) : bool :=
+        match ty with
+        | None => true
+        | Some (EName _ _ NLocal) => false
+        | Some (EName _ _ _) => true
+        | Some _ => false
+        end.
       Fixpoint tk_s (s : stmt) : bool :=
         match s with
         | SIf _ _ b o | SWhile _ _ b o | SFor _ _ _ b o => tk_ss b && tk_ss o
@@ -2872,7 +2881,7 @@ Section Sem.
       with tk_hs (hs : handlers) : bool :=
         match hs with
         | Hnil => true
-        | Hcons ty name b r => (negb (cov "exception") || bare_handler ty name) && tk_ss b && tk_hs r
+        | Hcons ty name b r => (negb (cov "exception") || simple_handler ty) && tk_ss b && tk_hs r
         end.
 
       Lemma ropt_sim c o : src_oe o = true -> sim eq (reval_opt c o) (eval_opt callo o).
@@ -2922,6 +2931,123 @@ Section Sem.
         - unfold test_value, decide. apply sim_ret_wrap. stop.
           test_tac c rc0 T1 T2; apply sim_ret; reflexivity.
         - sl (exact T2). apply sim_ret. assumption.
+      Qed.
+
+      (* ---- reasoning under a condition on the (left) state: what a successful lookup leaves true *)
+      Definition lookup_val (x : string) (s : st) : option val :=
+        match frames s with
+        | fr :: _ => if mem_str x (lnames fr) then alookup x (locals fr) else alookup x (genv s)
+        | [] => alookup x (genv s)
+        end.
+      Lemma lookup_some x s v : lookup_val x s = Some v -> lookup x s = (Ok v, s).
+      Proof.
+        Transparent lookup. unfold lookup_val, lookup. destruct (frames s) as [|fr r].
+        - intros ->. reflexivity.
+        - destruct (mem_str x (lnames fr)); intros ->; reflexivity.
+        Opaque lookup.
+      Qed.
+      Lemma lookup_inv x s v s' : lookup x s = (Ok v, s') -> lookup_val x s = Some v /\ s' = s.
+      Proof.
+        Transparent lookup raise_builtin prim_total. unfold lookup_val, lookup, raise_builtin, bind, prim_total, raise.
+        destruct (frames s) as [|fr r].
+        - destruct (alookup x (genv s)); [intros E; inversion E; auto|]. destruct (p_exc _ _ _); discriminate.
+        - destruct (mem_str x (lnames fr)).
+          + destruct (alookup x (locals fr)); [intros E; inversion E; auto|]. destruct (p_exc _ _ _); discriminate.
+          + destruct (alookup x (genv s)); [intros E; inversion E; auto|]. destruct (p_exc _ _ _); discriminate.
+        Opaque lookup raise_builtin prim_total.
+      Qed.
+      Lemma lookup_val_ext x s s' : genv s' = genv s -> frames s' = frames s -> lookup_val x s' = lookup_val x s.
+      Proof. intros Hg Hf. unfold lookup_val. rewrite Hg, Hf. reflexivity. Qed.
+      Lemma lookup_val_assign_same x v s : lookup_val x (snd (assign x v s)) = Some v.
+      Proof.
+        unfold lookup_val, assign. destruct (frames s) as [|fr r] eqn:F; cbn [snd frames genv]; [apply alookup_aupdate_same|].
+        destruct (mem_str x (lnames fr)) eqn:Mx; cbn [snd frames genv locals lnames].
+        - rewrite Mx. apply alookup_aupdate_same.
+        - rewrite ?F, Mx. apply alookup_aupdate_same.
+      Qed.
+      Lemma lookup_val_assign_keeps x y v s : lookup_val x s <> None -> lookup_val x (snd (assign y v s)) <> None.
+      Proof.
+        destruct (String.eqb_spec x y) as [->|Hne]; [intros _; rewrite lookup_val_assign_same; discriminate|].
+        unfold lookup_val, assign. destruct (frames s) as [|fr r] eqn:F; cbn [snd frames genv].
+        - rewrite alookup_aupdate_other by exact Hne. auto.
+        - destruct (mem_str y (lnames fr)) eqn:My; cbn [snd frames genv locals lnames].
+          + destruct (mem_str x (lnames fr)); [rewrite alookup_aupdate_other by exact Hne|]; auto.
+          + rewrite ?F. destruct (mem_str x (lnames fr)); [|rewrite alookup_aupdate_other by exact Hne]; auto.
+      Qed.
+
+      Lemma lookup_prim_keeps {A} (p : world -> pres A * world) s a s' : prim p s = (Ok a, s') -> genv s' = genv s /\ frames s' = frames s.
+      Proof.
+        Transparent prim. unfold prim. destruct (p (w s)) as [pr w']. destruct pr; intros E; inversion E; subst; split; reflexivity. Opaque prim.
+      Qed.
+
+      Definition simS {A B} (P : st -> Prop) (R : A -> B -> Prop) (m1 : M A) (m2 : M B) : Prop :=
+        forall s1 s2, P s1 -> beq s1 s2 -> rres R (fst (m1 s1)) (fst (m2 s2)) /\ beq (snd (m1 s1)) (snd (m2 s2)).
+      Lemma simS_of_sim {A B} P (R : A -> B -> Prop) m1 m2 : sim R m1 m2 -> simS P R m1 m2.
+      Proof. intros Hs s1 s2 _ Hb. apply Hs; exact Hb. Qed.
+      Lemma sim_of_simS {A B} (R : A -> B -> Prop) m1 m2 : simS (fun _ => True) R m1 m2 -> sim R m1 m2.
+      Proof. intros Hs s1 s2 Hb. apply Hs; [exact I|exact Hb]. Qed.
+      Lemma simS_bind {A B C D0} (P Q : st -> Prop) (R : A -> B -> Prop) (R' : C -> D0 -> Prop) m1 m2 k1 k2 :
+        simS P R m1 m2 -> (forall s a s', P s -> m1 s = (Ok a, s') -> Q s') ->
+        (forall a b, R a b -> simS Q R' (k1 a) (k2 b)) -> simS P R' (bind m1 k1) (bind m2 k2).
+      Proof.
+        intros Hm Hpost Hk s1 s2 HP Hb. unfold bind. specialize (Hm s1 s2 HP Hb). specialize (Hpost s1).
+        destruct (m1 s1) as [r1 s1'], (m2 s2) as [r2 s2']. cbn [fst snd] in Hm. destruct Hm as [Hr Hs].
+        destruct r1, r2; cbn [rres] in Hr; try contradiction; try (split; [exact Hr|exact Hs]).
+        apply Hk; [exact Hr|eapply Hpost; [exact HP|reflexivity]|exact Hs].
+      Qed.
+      Lemma simS_catch {A B} P (R : A -> B -> Prop) m1 m2 : simS P R m1 m2 -> simS P (rres R) (catch m1) (catch m2).
+      Proof.
+        intros Hm s1 s2 HP Hb. unfold catch. specialize (Hm s1 s2 HP Hb).
+        destruct (m1 s1) as [r1 s1'], (m2 s2) as [r2 s2']. cbn [fst snd] in Hm. destruct Hm as [Hr Hs].
+        destruct r1, r2; cbn [rres] in Hr; try contradiction; (split; [cbn; try exact Hr; try exact I|exact Hs]).
+      Qed.
+      Lemma simS_quiet_at {A B C} (P : st -> Prop) (R : B -> C -> Prop) (m : M A) a k m2 :
+        (forall s, P s -> fst (m s) = Ok a /\ beq (snd (m s)) s) -> sim R (k a) m2 -> simS P R (bind m k) m2.
+      Proof.
+        intros Hq Hk s1 s2 HP Hb. unfold bind. specialize (Hq s1 HP). destruct (m s1) as [r s1']. cbn [fst snd] in Hq.
+        destruct Hq as [-> Hs]. apply Hk. eapply beq_trans; eassumption.
+      Qed.
+
+      (* the payload of the [exception] event of a simple handler is quiet once the type name is known to be bound
+         and the handler's own name (if any) has just been assigned *)
+      Lemma payload_quiet tryn ty name e s :
+        simple_handler ty = true ->
+        (match ty with Some (EName _ x _) => lookup_val x s <> None | _ => True end) ->
+        (match name with Some nm => lookup_val nm s = Some e | None => True end) ->
+        fst ((bind (reval_opt rc0 ty) (fun tv2 =>
+              bind (match name with Some x => bind (lookup x) (fun v => ret (AV v)) | None => ret ANone end) (fun nv =>
+              bind (announce true true tryn) (fun _ =>
+              bind (ev "exception" tryn [match tv2 with Some v => AV v | None => ANone end; nv]) (fun _ => ret tt))))) s) = Ok tt
+        /\ beq (snd ((bind (reval_opt rc0 ty) (fun tv2 =>
+              bind (match name with Some x => bind (lookup x) (fun v => ret (AV v)) | None => ret ANone end) (fun nv =>
+              bind (announce true true tryn) (fun _ =>
+              bind (ev "exception" tryn [match tv2 with Some v => AV v | None => ANone end; nv]) (fun _ => ret tt))))) s)) s.
+      Proof.
+        intros Hsimple Hty Hname.
+        assert (Htail : forall tv2 nv, quiet (bind (announce true true tryn) (fun _ =>
+                          bind (ev "exception" tryn [match tv2 with Some v => AV v | None => ANone end; nv]) (fun _ => ret tt))) tt).
+        { intros tv2 nv. qq. }
+        assert (Hok : forall A B (m : M A) (k : A -> M B) s0 a s', m s0 = (Ok a, s') -> bind m k s0 = k a s').
+        { intros A B m k s0 a s' E. unfold bind. rewrite E. reflexivity. }
+        assert (Hnv : forall K : earg -> M unit, (forall nv, quiet (K nv) tt) ->
+                  fst (bind (match name with Some x => bind (lookup x) (fun v => ret (AV v)) | None => ret ANone end) K s) = Ok tt
+                  /\ beq (snd (bind (match name with Some x => bind (lookup x) (fun v => ret (AV v)) | None => ret ANone end) K s)) s).
+        { intros K HK. destruct name as [nm|].
+          - rewrite (Hok _ _ _ K s (AV e) s); [apply HK|]. rewrite (Hok _ _ _ _ s e s (lookup_some nm s e Hname)). reflexivity.
+          - rewrite (Hok _ _ _ K s ANone s); [apply HK|reflexivity]. }
+        destruct ty as [te|].
+        - destruct te; try discriminate Hsimple. destruct s0; try discriminate Hsimple.
+          all: cbn [reval_opt]; rewrite reval_unfold; cbn [reval_body]; unfold name_cov; rewrite !andb_false_r;
+            destruct (lookup_val x s) as [v|] eqn:L; [|contradiction Hty; reflexivity];
+            (rewrite (Hok _ _ _ _ s (Some v) s);
+               [exact (Hnv (fun nv => bind (announce true true tryn) (fun _ =>
+                                       bind (ev "exception" tryn [match Some v with Some v0 => AV v0 | None => ANone end; nv]) (fun _ => ret tt)))
+                           (fun nv => Htail (Some v) nv))|]);
+            rewrite (Hok _ _ _ _ s v s (lookup_some x s v L)); reflexivity.
+        - cbn [reval_opt]. rewrite (Hok _ _ _ _ s None s); [|reflexivity].
+          exact (Hnv (fun nv => bind (announce true true tryn) (fun _ =>
+                                  bind (ev "exception" tryn [match @None val with Some v0 => AV v0 | None => ANone end; nv]) (fun _ => ret tt)))
+                      (fun nv => Htail None nv)).
       Qed.
 
       Ltac loop_tail IHj :=
@@ -3072,14 +3198,48 @@ Section Sem.
                               (match ty with None => ret true | Some te => bind (eval callo te) (fun cls => prim (p_exc_match e cls)) end)).
           { destruct ty as [te|]; cbn [reval_opt]; [|stop; apply sim_ret; reflexivity]. simpl in Hs1. stop.
             sb (exact (proj1 (TE te Hs1 rc0))). apply sim_prim. }
-          eapply sim_meq_l; [symmetry; apply bind_assoc|]. sb (exact Hm). destruct b; [|apply IHr; assumption].
-          sb (destruct name; [apply sim_assign|apply sim_ret; reflexivity]). sb (apply sim_push_exc).
-          sb (apply sim_catch; eapply sim_quiet_l with (a := tt); [|apply IHb; assumption]).
-          { destruct (cov "exception") eqn:C; [|apply quiet_ret].
-            cbn [negb orb] in Hk1. unfold bare_handler in Hk1. apply andb_true_iff in Hk1; destruct Hk1 as [K1 K2].
-            destruct ty; [discriminate K1|]. destruct name; [discriminate K2|]. cbn [reval_opt]. qq. }
-          sb (apply sim_pop_exc). sb (destruct name; [apply sim_unbind|apply sim_ret; reflexivity]). apply sim_reraise.
-          match goal with Hr : rres _ ?ra ?rb |- _ => destruct ra as [[]| | | | | |], rb; cbn [rres] in Hr; try contradiction; subst; cbn; auto end.
+          assert (Htail : forall r1 r2 : res unit, rres eq r1 r2 ->
+                    sim eq (bind pop_exc (fun _ => bind (match name with Some x => unbind x | None => ret tt end) (fun _ => @reraise unit r1)))
+                           (bind pop_exc (fun _ => bind (match name with Some x => unbind x | None => ret tt end) (fun _ => @reraise unit r2)))).
+          { intros r1 r2 Hr. sb (apply sim_pop_exc). sb (destruct name; [apply sim_unbind|apply sim_ret; reflexivity]). apply sim_reraise.
+            destruct r1 as [[]| | | | | |], r2; cbn [rres] in Hr; try contradiction; subst; cbn; auto. }
+          eapply sim_meq_l; [symmetry; apply bind_assoc|].
+          destruct (cov "exception") eqn:C.
+          + (* covered: the payload looks the type name and the bound name up once more *)
+            cbn [negb orb] in Hk1.
+            set (Pty := fun s : st => match ty with Some (EName _ x _) => lookup_val x s <> None | _ => True end).
+            set (Pnm := fun s : st => Pty s /\ match name with Some nm => lookup_val nm s = Some e | None => True end).
+            assert (Hext : forall s s', genv s' = genv s -> frames s' = frames s -> Pty s -> Pty s').
+            { intros s s' Hg Hf. unfold Pty. destruct ty as [te|]; [|auto]. destruct te; auto. rewrite (lookup_val_ext x s s' Hg Hf). auto. }
+            apply sim_of_simS.
+            eapply simS_bind with (Q := Pty); [apply simS_of_sim; exact Hm| |].
+            { (* a successful evaluation of the type leaves its name bound *)
+              intros s a s' _. unfold Pty. destruct ty as [te|]; [|auto]. destruct te; auto. destruct s0; try discriminate Hk1.
+              all: cbn [reval_opt]; rewrite reval_unfold; cbn [reval_body]; unfold name_cov; rewrite !andb_false_r;
+                unfold bind; destruct (lookup x s) as [r s0] eqn:L; destruct r; try discriminate;
+                apply lookup_inv in L; destruct L as [Lv ->]; cbn [ret];
+                intros E; apply lookup_prim_keeps in E; destruct E as [Eg Ef];
+                rewrite (lookup_val_ext x s s' Eg Ef), Lv; discriminate. }
+            intros m1 m2 <-. destruct m1; [|apply simS_of_sim; apply IHr; assumption].
+            eapply simS_bind with (Q := Pnm); [apply simS_of_sim; destruct name; [apply sim_assign|apply sim_ret; reflexivity]| |].
+            { intros s a s' HP E. unfold Pnm. destruct name as [nm|].
+              - assert (s' = snd (assign nm e s)) as -> by (rewrite E; reflexivity). split; [|apply lookup_val_assign_same].
+                revert HP. unfold Pty. destruct ty as [te|]; [|auto]. destruct te; auto. apply lookup_val_assign_keeps.
+              - inversion E; subst. split; [exact HP|exact I]. }
+            intros _ _ _.
+            eapply simS_bind with (Q := Pnm); [apply simS_of_sim; apply sim_push_exc| |].
+            { intros s a s' [HP HN] E. inversion E; subst. split; [apply (Hext s); [reflexivity|reflexivity|exact HP]|].
+              destruct name as [nm|]; [|exact I]. rewrite (lookup_val_ext nm s); [exact HN|reflexivity|reflexivity]. }
+            intros _ _ _.
+            eapply simS_bind with (Q := fun _ => True) (R := rres eq).
+            * apply simS_catch. eapply simS_quiet_at with (a := tt); [|apply IHb; assumption].
+              intros s [HP HN]. exact (payload_quiet tryn ty name e s Hk1 HP HN).
+            * auto.
+            * intros r1 r2 Hr. apply simS_of_sim. apply Htail. exact Hr.
+          + sb (exact Hm). destruct b; [|apply IHr; assumption].
+            sb (destruct name; [apply sim_assign|apply sim_ret; reflexivity]). sb (apply sim_push_exc).
+            sb (apply sim_catch; eapply sim_quiet_l with (a := tt); [apply quiet_ret|apply IHb; assumption]).
+            apply Htail. assumption.
       Qed.
     End Transparency.
 
@@ -3808,8 +3968,8 @@ Section Sem.
     Notation PE2 := (proj1 plain_sim2).
 
     (* guard of the theorem (a place where the reference semantics, like the implementation, lets another hook influence
-       what happens around an event): handlers carry neither type nor name unless both selections agree on the exception
-       hook (its payload evaluates the type expression once more) *)
+       what happens around an event): unless both selections agree on the exception hook, a handler's type is absent or a
+       (non-local) name -- the payload of the event evaluates the type expression once more *)
     Definition exc_agree : bool := Bool.eqb (cov H1 "exception") (cov H2 "exception").
     Fixpoint g8_s (s : stmt) : bool :=
       match s with
@@ -3821,7 +3981,7 @@ Section Sem.
     with g8_hs (hs : handlers) : bool :=
       match hs with
       | Hnil => true
-      | Hcons ty name b r => (exc_agree || bare_handler ty name) && g8_ss b && g8_hs r
+      | Hcons ty name b r => (exc_agree || simple_handler ty) && g8_ss b && g8_hs r
       end.
 
     Lemma ropt2 c o : src_oe o = true -> sim2 eq (reval_opt H1 call1 c o) (reval_opt H2 call2 c o).
@@ -3885,6 +4045,91 @@ Section Sem.
         destruct ra as [[]| | | | | |], rb; cbn [rres] in Hr; try contradiction; subst;
         try (apply sim2_ret; reflexivity); try exact IHj; try (apply s2_reraise; cbn; auto)
       end.
+
+    Definition simS2 {A B} (P1 P2 : st -> Prop) (R : A -> B -> Prop) (m1 : M A) (m2 : M B) : Prop :=
+      forall s1 s2, P1 s1 -> P2 s2 -> heq s1 s2 -> rres R (fst (m1 s1)) (fst (m2 s2)) /\ heq (snd (m1 s1)) (snd (m2 s2)).
+    Lemma simS2_of_sim2 {A B} P1 P2 (R : A -> B -> Prop) m1 m2 : sim2 R m1 m2 -> simS2 P1 P2 R m1 m2.
+    Proof. intros Hs s1 s2 _ _ Hb. apply Hs; exact Hb. Qed.
+    Lemma sim2_of_simS2 {A B} (R : A -> B -> Prop) m1 m2 : simS2 (fun _ => True) (fun _ => True) R m1 m2 -> sim2 R m1 m2.
+    Proof. intros Hs s1 s2 Hb. apply Hs; [exact I|exact I|exact Hb]. Qed.
+    Lemma simS2_bind {A B C D0} (P1 P2 Q1 Q2 : st -> Prop) (R : A -> B -> Prop) (R' : C -> D0 -> Prop) m1 m2 k1 k2 :
+      simS2 P1 P2 R m1 m2 ->
+      (forall s a s', P1 s -> m1 s = (Ok a, s') -> Q1 s') -> (forall s a s', P2 s -> m2 s = (Ok a, s') -> Q2 s') ->
+      (forall a b, R a b -> simS2 Q1 Q2 R' (k1 a) (k2 b)) -> simS2 P1 P2 R' (bind m1 k1) (bind m2 k2).
+    Proof.
+      intros Hm Hp1 Hp2 Hk s1 s2 HP1 HP2 Hb. unfold bind. specialize (Hm s1 s2 HP1 HP2 Hb). specialize (Hp1 s1). specialize (Hp2 s2).
+      destruct (m1 s1) as [r1 s1'], (m2 s2) as [r2 s2']. cbn [fst snd] in Hm. destruct Hm as [Hr Hs].
+      destruct r1, r2; cbn [rres] in Hr; try contradiction; try (split; [exact Hr|exact Hs]).
+      apply Hk; [exact Hr|eapply Hp1; [exact HP1|reflexivity]|eapply Hp2; [exact HP2|reflexivity]|exact Hs].
+    Qed.
+    Lemma simS2_catch {A B} P1 P2 (R : A -> B -> Prop) m1 m2 : simS2 P1 P2 R m1 m2 -> simS2 P1 P2 (rres R) (catch m1) (catch m2).
+    Proof.
+      intros Hm s1 s2 HP1 HP2 Hb. unfold catch. specialize (Hm s1 s2 HP1 HP2 Hb).
+      destruct (m1 s1) as [r1 s1'], (m2 s2) as [r2 s2']. cbn [fst snd] in Hm. destruct Hm as [Hr Hs].
+      destruct r1, r2; cbn [rres] in Hr; try contradiction; (split; [cbn; try exact Hr; try exact I|exact Hs]).
+    Qed.
+    Lemma simS2_hq_l {A B C} (P1 P2 : st -> Prop) (R : B -> C -> Prop) (m : M A) a k m2 :
+      (forall s, P1 s -> fst (m s) = Ok a /\ beq (snd (m s)) s /\ hproj (snd (m s)) = hproj s) -> sim2 R (k a) m2 ->
+      simS2 P1 P2 R (bind m k) m2.
+    Proof.
+      intros Hq Hk s1 s2 HP1 _ [Hb Hp]. unfold bind. specialize (Hq s1 HP1). destruct (m s1) as [r s1']. cbn [fst snd] in Hq.
+      destruct Hq as [-> [Hs Hh]]. apply Hk. split; [eapply beq_trans; eassumption|congruence].
+    Qed.
+    Lemma simS2_hq_r {A B C} (P1 P2 : st -> Prop) (R : B -> C -> Prop) (m : M A) a k m1 :
+      (forall s, P2 s -> fst (m s) = Ok a /\ beq (snd (m s)) s /\ hproj (snd (m s)) = hproj s) -> sim2 R m1 (k a) ->
+      simS2 P1 P2 R m1 (bind m k).
+    Proof.
+      intros Hq Hk s1 s2 _ HP2 [Hb Hp]. unfold bind. specialize (Hq s2 HP2). destruct (m s2) as [r s2']. cbn [fst snd] in Hq.
+      destruct Hq as [-> [Hs Hh]]. apply Hk. split; [eapply beq_trans; [exact Hb|apply beq_sym; exact Hs]|congruence].
+    Qed.
+
+    (* the payload of the [exception] event of a simple handler, when that hook is not h *)
+    Lemma payload_hquiet Hs cl tryn ty name e s :
+      String.eqb "exception" h = false -> simple_handler ty = true ->
+      (match ty with Some (EName _ x _) => lookup_val x s <> None | _ => True end) ->
+      (match name with Some nm => lookup_val nm s = Some e | None => True end) ->
+      let P := bind (reval_opt Hs cl rc0 ty) (fun tv2 =>
+               bind (match name with Some x => bind (lookup x) (fun v => ret (AV v)) | None => ret ANone end) (fun nv =>
+               bind (announce true true tryn) (fun _ =>
+               bind (ev "exception" tryn [match tv2 with Some v => AV v | None => ANone end; nv]) (fun _ => ret tt)))) in
+      fst (P s) = Ok tt /\ beq (snd (P s)) s /\ hproj (snd (P s)) = hproj s.
+    Proof.
+      intros Hne Hsimple Hty Hname P. subst P.
+      assert (Htail : forall tv2 nv, hquiet (bind (announce true true tryn) (fun _ =>
+                        bind (ev "exception" tryn [match tv2 with Some v => AV v | None => ANone end; nv]) (fun _ => ret tt))) tt).
+      { intros tv2 nv. eapply hquiet_bind; [apply hquiet_announce|]. eapply hquiet_bind; [apply hquiet_ev; exact Hne|apply hquiet_ret]. }
+      assert (Hok : forall A B (m : M A) (k : A -> M B) s0 a s', m s0 = (Ok a, s') -> bind m k s0 = k a s').
+      { intros A B m k s0 a s' E. unfold bind. rewrite E. reflexivity. }
+      assert (Hnv : forall K : earg -> M unit, (forall nv, hquiet (K nv) tt) ->
+                fst (bind (match name with Some x => bind (lookup x) (fun v => ret (AV v)) | None => ret ANone end) K s) = Ok tt
+                /\ beq (snd (bind (match name with Some x => bind (lookup x) (fun v => ret (AV v)) | None => ret ANone end) K s)) s
+                /\ hproj (snd (bind (match name with Some x => bind (lookup x) (fun v => ret (AV v)) | None => ret ANone end) K s)) = hproj s).
+      { intros K HK. destruct name as [nm|].
+        - rewrite (Hok _ _ _ K s (AV e) s); [apply HK|]. rewrite (Hok _ _ _ _ s e s (lookup_some nm s e Hname)). reflexivity.
+        - rewrite (Hok _ _ _ K s ANone s); [apply HK|reflexivity]. }
+      destruct ty as [te|].
+      - destruct te; try discriminate Hsimple. destruct s0; try discriminate Hsimple.
+        all: cbn [reval_opt]; rewrite reval_unfold; cbn [reval_body]; unfold name_cov; rewrite !andb_false_r;
+          destruct (lookup_val x s) as [v|] eqn:L; [|contradiction Hty; reflexivity];
+          (rewrite (Hok _ _ _ _ s (Some v) s);
+             [exact (Hnv (fun nv => bind (announce true true tryn) (fun _ =>
+                                     bind (ev "exception" tryn [match Some v with Some v0 => AV v0 | None => ANone end; nv]) (fun _ => ret tt)))
+                         (fun nv => Htail (Some v) nv))|]);
+          rewrite (Hok _ _ _ _ s v s (lookup_some x s v L)); reflexivity.
+      - cbn [reval_opt]. rewrite (Hok _ _ _ _ s None s); [|reflexivity].
+        exact (Hnv (fun nv => bind (announce true true tryn) (fun _ =>
+                                bind (ev "exception" tryn [match @None val with Some v0 => AV v0 | None => ANone end; nv]) (fun _ => ret tt)))
+                    (fun nv => Htail None nv)).
+    Qed.
+    (* a successful evaluation of a simple handler type leaves its name bound *)
+    Lemma ropt_post Hs cl ty s a s' : simple_handler ty = true -> reval_opt Hs cl rc0 ty s = (Ok a, s') ->
+      match ty with Some (EName _ x _) => lookup_val x s' <> None | _ => True end.
+    Proof.
+      intros Hsimple. destruct ty as [te|]; [|auto]. destruct te; auto. destruct s0; try discriminate Hsimple.
+      all: cbn [reval_opt]; rewrite reval_unfold; cbn [reval_body]; unfold name_cov; rewrite !andb_false_r;
+        unfold bind; destruct (lookup x s) as [r s0] eqn:L; destruct r; try discriminate;
+        apply lookup_inv in L; destruct L as [Lv ->]; cbn [ret]; intros E; inversion E; subst; rewrite Lv; discriminate.
+    Qed.
 
     Theorem hi_stmt :
       (forall s, src_s s = true -> g8_s s = true -> forall k, sim2 eq (rexec H1 call1 bound k s) (rexec H2 call2 bound k s))
@@ -3990,20 +4235,92 @@ Section Sem.
         apply andb_true_iff in Hs; destruct Hs as [Hs12 Hs3]. apply andb_true_iff in Hs12; destruct Hs12 as [Hs1 Hs2].
         apply andb_true_iff in Hk; destruct Hk as [Hk12 Hk3]. apply andb_true_iff in Hk12; destruct Hk12 as [Hk1 Hk2].
         rewrite (rexec_handlers_cons H1 call1), (rexec_handlers_cons H2 call2).
-        sb2 (exact (ropt2 rc0 ty Hs1)). sb2 (destruct b as [cls|]; [apply s2_prim|apply sim2_ret; reflexivity]).
-        destruct b0; [|apply IHr; assumption].
-        sb2 (destruct name; [apply s2_assign|apply sim2_ret; reflexivity]). sb2 (apply s2_push_exc).
-        eapply sim2_bind with (R := rres eq).
-        + apply s2_catch. unfold exc_agree in Hk1.
-          destruct (cov H1 "exception") eqn:C1, (cov H2 "exception") eqn:C2; cbn [Bool.eqb orb] in Hk1.
-          * pose proof (ropt2 rc0 ty Hs1) as HT. stop2. sb2 (exact HT). destruct name; hs; try (sb2 (apply s2_lookup); hs); same_ev; hs; apply IHb; assumption.
-          * unfold bare_handler in Hk1. apply andb_true_iff in Hk1; destruct Hk1 as [K1 K2].
-            destruct ty; [discriminate K1|]. destruct name; [discriminate K2|]. cbn [reval_opt]. hs. apply IHb; assumption.
-          * unfold bare_handler in Hk1. apply andb_true_iff in Hk1; destruct Hk1 as [K1 K2].
-            destruct ty; [discriminate K1|]. destruct name; [discriminate K2|]. cbn [reval_opt]. hs. apply IHb; assumption.
-          * hs. apply IHb; assumption.
-        + intros r1 r2 Hr. sb2 (apply s2_pop_exc). sb2 (destruct name; [apply s2_unbind|apply sim2_ret; reflexivity]).
-          apply s2_reraise. destruct r1 as [[]| | | | | |], r2; cbn [rres] in Hr; try contradiction; subst; cbn; auto.
+        assert (Htail : forall r1 r2 : res unit, rres eq r1 r2 ->
+                  sim2 eq (bind pop_exc (fun _ => bind (match name with Some x => unbind x | None => ret tt end) (fun _ => @reraise unit r1)))
+                          (bind pop_exc (fun _ => bind (match name with Some x => unbind x | None => ret tt end) (fun _ => @reraise unit r2)))).
+        { intros r1 r2 Hr. sb2 (apply s2_pop_exc). sb2 (destruct name; [apply s2_unbind|apply sim2_ret; reflexivity]).
+          apply s2_reraise. destruct r1 as [[]| | | | | |], r2; cbn [rres] in Hr; try contradiction; subst; cbn; auto. }
+        unfold exc_agree in Hk1.
+        destruct (cov H1 "exception") eqn:C1, (cov H2 "exception") eqn:C2; cbn [Bool.eqb orb] in Hk1.
+        + sb2 (exact (ropt2 rc0 ty Hs1)). sb2 (destruct b as [cls|]; [apply s2_prim|apply sim2_ret; reflexivity]).
+          destruct b0; [|apply IHr; assumption].
+          sb2 (destruct name; [apply s2_assign|apply sim2_ret; reflexivity]). sb2 (apply s2_push_exc).
+          eapply sim2_bind with (R := rres eq); [|intros r1 r2 Hr; apply Htail; exact Hr]. apply s2_catch.
+          pose proof (ropt2 rc0 ty Hs1) as HT. stop2. sb2 (exact HT). destruct name; hs; try (sb2 (apply s2_lookup); hs); same_ev; hs; apply IHb; assumption.
+        + (* only the first selection reports the handler *)
+          set (Pty := fun s : st => match ty with Some (EName _ x _) => lookup_val x s <> None | _ => True end).
+          set (Pnm := fun s : st => Pty s /\ match name with Some nm => lookup_val nm s = Some e | None => True end).
+          assert (Hext : forall s s', genv s' = genv s -> frames s' = frames s -> Pty s -> Pty s').
+          { intros s s' Hg Hf. unfold Pty. destruct ty as [te|]; [|auto]. destruct te; auto. rewrite (lookup_val_ext x s s' Hg Hf). auto. }
+          assert (Hasg : forall s a s', Pty s -> (match name with Some x => assign x e | None => ret tt end) s = (Ok a, s') -> Pnm s').
+          { intros s a s' HP E. unfold Pnm. destruct name as [nm|].
+            - assert (s' = snd (assign nm e s)) as -> by (rewrite E; reflexivity). split; [|apply lookup_val_assign_same].
+              revert HP. unfold Pty. destruct ty as [te|]; [|auto]. destruct te; auto. apply lookup_val_assign_keeps.
+            - inversion E; subst. split; [exact HP|exact I]. }
+          assert (Hpsh : forall s a s', Pnm s -> push_exc e s = (Ok a, s') -> Pnm s').
+          { intros s a s' [HP HN] E. inversion E; subst. split; [apply (Hext s); [reflexivity|reflexivity|exact HP]|].
+            destruct name as [nm|]; [|exact I]. rewrite (lookup_val_ext nm s); [exact HN|reflexivity|reflexivity]. }
+          assert (Hprim : forall s (a : bool) s' tv, Pty s -> (match tv with None => ret true | Some cls => prim (p_exc_match e cls) end) s = (Ok a, s') -> Pty s').
+          { intros s a s' tv HP E. destruct tv as [cls|]; [|inversion E; subst; exact HP].
+            apply lookup_prim_keeps in E. destruct E as [Eg Ef]. apply (Hext s); assumption. }
+          apply sim2_of_simS2.
+          eapply simS2_bind with (Q1 := Pty) (Q2 := Pty); [apply simS2_of_sim2; exact (ropt2 rc0 ty Hs1)| | |].
+          { intros s a s' _ E. exact (ropt_post H1 call1 ty s a s' Hk1 E). }
+          { intros s a s' _ E. exact (ropt_post H2 call2 ty s a s' Hk1 E). }
+          intros tv1 tv2 <-.
+          eapply simS2_bind with (Q1 := Pty) (Q2 := Pty);
+            [apply simS2_of_sim2; destruct tv1 as [cls|]; [apply s2_prim|apply sim2_ret; reflexivity]
+            |intros s a s' HP E; exact (Hprim s a s' tv1 HP E)|intros s a s' HP E; exact (Hprim s a s' tv1 HP E)|].
+          intros m1 m2 <-. destruct m1; [|apply simS2_of_sim2; apply IHr; assumption].
+          eapply simS2_bind with (Q1 := Pnm) (Q2 := Pnm);
+            [apply simS2_of_sim2; destruct name; [apply s2_assign|apply sim2_ret; reflexivity]|exact Hasg|exact Hasg|].
+          intros _ _ _.
+          eapply simS2_bind with (Q1 := Pnm) (Q2 := Pnm); [apply simS2_of_sim2; apply s2_push_exc|exact Hpsh|exact Hpsh|].
+          intros _ _ _.
+          eapply simS2_bind with (Q1 := fun _ => True) (Q2 := fun _ => True) (R := rres eq); [| auto | auto |].
+          * apply simS2_catch. eapply simS2_hq_l with (a := tt).
+            -- intros s [HP HN]. apply (payload_hquiet H1 call1 tryn ty name e s); [nh|exact Hk1|exact HP|exact HN].
+            -- hs. apply IHb; assumption.
+          * intros r1 r2 Hr. apply simS2_of_sim2. apply Htail. exact Hr.
+        + (* only the second selection reports the handler *)
+          set (Pty := fun s : st => match ty with Some (EName _ x _) => lookup_val x s <> None | _ => True end).
+          set (Pnm := fun s : st => Pty s /\ match name with Some nm => lookup_val nm s = Some e | None => True end).
+          assert (Hext : forall s s', genv s' = genv s -> frames s' = frames s -> Pty s -> Pty s').
+          { intros s s' Hg Hf. unfold Pty. destruct ty as [te|]; [|auto]. destruct te; auto. rewrite (lookup_val_ext x s s' Hg Hf). auto. }
+          assert (Hasg : forall s a s', Pty s -> (match name with Some x => assign x e | None => ret tt end) s = (Ok a, s') -> Pnm s').
+          { intros s a s' HP E. unfold Pnm. destruct name as [nm|].
+            - assert (s' = snd (assign nm e s)) as -> by (rewrite E; reflexivity). split; [|apply lookup_val_assign_same].
+              revert HP. unfold Pty. destruct ty as [te|]; [|auto]. destruct te; auto. apply lookup_val_assign_keeps.
+            - inversion E; subst. split; [exact HP|exact I]. }
+          assert (Hpsh : forall s a s', Pnm s -> push_exc e s = (Ok a, s') -> Pnm s').
+          { intros s a s' [HP HN] E. inversion E; subst. split; [apply (Hext s); [reflexivity|reflexivity|exact HP]|].
+            destruct name as [nm|]; [|exact I]. rewrite (lookup_val_ext nm s); [exact HN|reflexivity|reflexivity]. }
+          assert (Hprim : forall s (a : bool) s' tv, Pty s -> (match tv with None => ret true | Some cls => prim (p_exc_match e cls) end) s = (Ok a, s') -> Pty s').
+          { intros s a s' tv HP E. destruct tv as [cls|]; [|inversion E; subst; exact HP].
+            apply lookup_prim_keeps in E. destruct E as [Eg Ef]. apply (Hext s); assumption. }
+          apply sim2_of_simS2.
+          eapply simS2_bind with (Q1 := Pty) (Q2 := Pty); [apply simS2_of_sim2; exact (ropt2 rc0 ty Hs1)| | |].
+          { intros s a s' _ E. exact (ropt_post H1 call1 ty s a s' Hk1 E). }
+          { intros s a s' _ E. exact (ropt_post H2 call2 ty s a s' Hk1 E). }
+          intros tv1 tv2 <-.
+          eapply simS2_bind with (Q1 := Pty) (Q2 := Pty);
+            [apply simS2_of_sim2; destruct tv1 as [cls|]; [apply s2_prim|apply sim2_ret; reflexivity]
+            |intros s a s' HP E; exact (Hprim s a s' tv1 HP E)|intros s a s' HP E; exact (Hprim s a s' tv1 HP E)|].
+          intros m1 m2 <-. destruct m1; [|apply simS2_of_sim2; apply IHr; assumption].
+          eapply simS2_bind with (Q1 := Pnm) (Q2 := Pnm);
+            [apply simS2_of_sim2; destruct name; [apply s2_assign|apply sim2_ret; reflexivity]|exact Hasg|exact Hasg|].
+          intros _ _ _.
+          eapply simS2_bind with (Q1 := Pnm) (Q2 := Pnm); [apply simS2_of_sim2; apply s2_push_exc|exact Hpsh|exact Hpsh|].
+          intros _ _ _.
+          eapply simS2_bind with (Q1 := fun _ => True) (Q2 := fun _ => True) (R := rres eq); [| auto | auto |].
+          * apply simS2_catch. eapply simS2_hq_r with (a := tt).
+            -- intros s [HP HN]. apply (payload_hquiet H2 call2 tryn ty name e s); [nh|exact Hk1|exact HP|exact HN].
+            -- hs. apply IHb; assumption.
+          * intros r1 r2 Hr. apply simS2_of_sim2. apply Htail. exact Hr.
+        + sb2 (exact (ropt2 rc0 ty Hs1)). sb2 (destruct b as [cls|]; [apply s2_prim|apply sim2_ret; reflexivity]).
+          destruct b0; [|apply IHr; assumption].
+          sb2 (destruct name; [apply s2_assign|apply sim2_ret; reflexivity]). sb2 (apply s2_push_exc).
+          eapply sim2_bind with (R := rres eq); [|intros r1 r2 Hr; apply Htail; exact Hr]. apply s2_catch. hs. apply IHb; assumption.
     Qed.
   End HookIndependence.
 
